@@ -894,3 +894,42 @@ package scipipe
 //@   loop 3 invariant direct-cur: forall r string :: $visited[r] ==> listed(procs, pip.RemotePorts[r].process)
 //@   loop 3 invariant closed: forall k string, q ref :: k in procs && directUp(q, procs[k]) ==> listed(procs, q)
 //@   loop 3 invariant only-upstream: forall k string :: k in procs ==> directUp(procs[k], proc) || (exists k2 string :: k2 in procs && directUp(procs[k], procs[k2]))
+
+// ---- wiring operations (port.go) ----
+
+//@ func (*InPort).AddRemotePort(pt, rpt)
+//@   props C16
+//@   modifies pt.RemotePorts[*]
+//@   ensures added: (procName(rpt.process) + "." + rpt.name) in pt.RemotePorts && pt.RemotePorts[procName(rpt.process) + "." + rpt.name] == rpt
+//@   ensures others: forall k string :: k != procName(rpt.process) + "." + rpt.name ==> ((k in pt.RemotePorts) <==> old(k in pt.RemotePorts)) && pt.RemotePorts[k] == old(pt.RemotePorts[k])
+//@   ensures nonempty: len(pt.RemotePorts) > 0
+//@ func (*OutPort).AddRemotePort(pt, rpt)
+//@   props C16
+//@   modifies pt.RemotePorts[*]
+//@   ensures added: (procName(rpt.process) + "." + rpt.name) in pt.RemotePorts && pt.RemotePorts[procName(rpt.process) + "." + rpt.name] == rpt
+//@   ensures others: forall k string :: k != procName(rpt.process) + "." + rpt.name ==> ((k in pt.RemotePorts) <==> old(k in pt.RemotePorts)) && pt.RemotePorts[k] == old(pt.RemotePorts[k])
+//@   ensures nonempty: len(pt.RemotePorts) > 0
+//@ func (*OutPort).removeRemotePort(pt, rptName)
+//@   props C16
+//@   modifies pt.RemotePorts[*]
+//@   ensures removed: !(rptName in pt.RemotePorts)
+//@   ensures others: forall k string :: k != rptName ==> ((k in pt.RemotePorts) <==> old(k in pt.RemotePorts)) && pt.RemotePorts[k] == old(pt.RemotePorts[k])
+//@   ensures len: len(pt.RemotePorts) == old(len(pt.RemotePorts)) - 1
+//@ func (*InPort).From(pt, rpt)
+//@   props C16
+//@   requires distinct-maps: pt.RemotePorts != nil && rpt.RemotePorts != nil
+//@   modifies pt.RemotePorts[*], rpt.RemotePorts[*], pt.ready, rpt.ready
+//@   ensures connected-and-ready: pt.ready && rpt.ready && len(pt.RemotePorts) > 0 && len(rpt.RemotePorts) > 0
+//@   ensures linked: pt.RemotePorts[procName(rpt.process) + "." + rpt.name] == rpt && rpt.RemotePorts[procName(pt.process) + "." + pt.name] == pt
+//@ func (*OutPort).To(pt, rpt)
+//@   props C16
+//@   requires distinct-maps: pt.RemotePorts != nil && rpt.RemotePorts != nil
+//@   modifies pt.RemotePorts[*], rpt.RemotePorts[*], pt.ready, rpt.ready
+//@   ensures connected-and-ready: pt.ready && rpt.ready && len(pt.RemotePorts) > 0 && len(rpt.RemotePorts) > 0
+//@   ensures linked: pt.RemotePorts[procName(rpt.process) + "." + rpt.name] == rpt && rpt.RemotePorts[procName(pt.process) + "." + pt.name] == pt
+//@ func (*OutPort).Disconnect(pt, rptName)
+//@   props C16
+//@   modifies pt.RemotePorts[*], pt.ready
+//@   ensures removed: !(rptName in pt.RemotePorts)
+//@   ensures others: forall k string :: k != rptName ==> ((k in pt.RemotePorts) <==> old(k in pt.RemotePorts)) && pt.RemotePorts[k] == old(pt.RemotePorts[k])
+//@   ensures ready-iff-connected: old(pt.ready <==> len(pt.RemotePorts) > 0) ==> (pt.ready <==> len(pt.RemotePorts) > 0)
